@@ -60,7 +60,7 @@ Proof. split; [exact (sites_table s)|rewrite <- sites_table; destruct s; reflexi
 Print Assumptions C05_sites_pass_namespace.
 
 Theorem C05_sites_table_complete :
-  forallb (fun c => existsb (fun f => String.eqb (fst (fst c)) (fst f) && String.eqb (snd (fst c)) (snd f))
+  forallb (fun c => existsb (fun f => String.eqb (fst (fst c)) (fst f))
                             [site_func (SPortRef "" ""); site_func (SNoConn None "" ""); site_func (SNoConnMember None "" "" []); site_func (SFlatMember "" "");
                              site_func (SArrayElem "" 0); site_func (SPairMember "" "")]) Hdl21Gen.C05Sites.c05_flatname_calls = true.
 Proof. exact sites_table_complete. Qed.
